@@ -175,11 +175,11 @@ RULE_ASSUME=["GOARCH=amd64 (rule encoding is architecture dependent)","os.Stat a
 BASES=["watch","syscall-two-strings","all-syscalls-compare","user-msgtype","64-fields"]
 c13=[]
 for i,bn in enumerate(BASES):
-    c13.append(job(f"decode-{bn}","rule","VH_DecodeHostile",["C13/"],{"base":i,"budget_is_violation":1},Q,alloc_cap=4096,loop_cap=3000,
-        bounds=f"valid rule '{bn}' with one of 16 header words (flags, action, field_count, buflen, mask[0], mask[63], fields/values/fieldflags[0,1,63], values[2]) replaced by a symbolic 32-bit value; allocation cap 4096 elements, unwinding cap 3000"))
+    c13.append(job(f"decode-{bn}","rule","VH_DecodeHostile",["C13/"],{"base":i,"budget_is_violation":1},Q,alloc_cap=65536,loop_cap=3000,
+        bounds=f"valid rule '{bn}' with one of 16 header words (flags, action, field_count, buflen, mask[0], mask[63], fields/values/fieldflags[0,1,63], values[2]) replaced by a symbolic 32-bit value; allocation cap 65536 elements (a rule that names all 2048 syscalls legitimately prints ~50 KB of text), unwinding cap 3000"))
 for (a,b,name) in [(2,3,"fieldcount-x-buflen"),(10,11,"values1-x-values2"),(6,9,"field0-x-value0"),(10,3,"values1-x-buflen")]:
-    c13.append(job(f"decode-pair-{name}","rule","VH_DecodeHostile",["C13/"],{"base":1,"word1":a,"word2":b,"budget_is_violation":1},Q,alloc_cap=4096,loop_cap=3000,bounds=f"syscall rule with two header words symbolic at once: {name}"))
-c13.append(job("decode-short","rule","VH_DecodeShort",["C13/"],{"budget_is_violation":1},Q,alloc_cap=4096,loop_cap=3000,bounds="buffers of length 0,1,4,1039,1040,1041,1044 with the scalar header words and the tail symbolic"))
+    c13.append(job(f"decode-pair-{name}","rule","VH_DecodeHostile",["C13/"],{"base":1,"word1":a,"word2":b,"budget_is_violation":1},Q,alloc_cap=65536,loop_cap=3000,bounds=f"syscall rule with two header words symbolic at once: {name}"))
+c13.append(job("decode-short","rule","VH_DecodeShort",["C13/"],{"budget_is_violation":1},Q,alloc_cap=65536,loop_cap=3000,bounds="buffers of length 0,1,4,1039,1040,1041,1044 with the scalar header words and the tail symbolic"))
 for c,name in enumerate(["syscall-digits","65-filters","garbage-strings","nil-and-odd","filter-type","big-syscall-numbers"]):
     c13.append(job("build-"+name,"rule","VH_BuildHostile",["C13/"],{"case":c},Q,bounds={"syscall-digits":"syscall given as 0..5 symbolic decimal digits, optionally negative","65-filters":"65 filters + key","garbage-strings":"list/action/field/operator/value replaced by 0..2 symbolic ASCII bytes","nil-and-odd":"nil rule, nil pointers of each type, foreign Rule implementation, DeleteAllRule","filter-type":"symbolic FilterType byte","big-syscall-numbers":"2047, 2048, 2049, 2^31-1, 2^31, 2^32-1, 2^32, -1, 10^20-1"}[name]))
 c13.append(job("flags-any-0-3","rule/flags","VH_ParseAnyString",["C13/"],{"maxlen":3},Q,bounds="flags.Parse (then Build) on every ASCII string of 0..3 symbolic bytes"))
@@ -232,7 +232,7 @@ C["C14"]={"jobs":c14,"assumptions":PARSE_ASSUME[:2]+["hole bytes are ASCII and f
    "filter text is compared after trimming surrounding white space and ignoring white space between field and operator (a parser that trims is not faulted, one that drops non-blank text is)"],
    "outside":["lines with more than 4 flags","filter text longer than 6 symbolic bytes","other quoting styles (double quotes, backslashes) in the assembled line"]}
 
-PROGS=["pp|cm","pc|pm","pm|pc","pp|pc","pc|cp","cc|pp","mp|cm","pp|c|m","pc|p|c","p|p|c","ppp|cm","ppc|pm"]
+PROGS=["pp|cm","pc|pm","pm|pc","pp|pc","pc|cp","cc|pp","mp|cm","pp|c|m","pc|p|c","p|p|c","ppp|cm","ppc|pm","m|pc","m|pp","mm|pc","m|p|c"]
 c11=[]
 for i,pg in enumerate(PROGS):
     nth=pg.count("|")+1
@@ -280,6 +280,7 @@ for (a,b) in [("uid","arch"),("arch","uid"),("path","perm"),("perm","path"),("ex
     if b=="msgtype": continue
     c07.append(job(f"two-{a}-{b}","rule/flags","VH_RoundTrip",["C07/"],{"shape":0,"field":RTF.index(a),"second":RTF.index(b),"list":0,"digits":3,"strmax":1,"maxkeys":1,"sysforms":2,"oneop":1,"realpath":1},Q,expect=["C07/accepted-by-build"],
        bounds=f"two filters in the order {a}, {b} (field order, watch-shaped rules)"))
+c07.append(job("multikey","rule/flags","VH_RoundTrip",["C07/"],{"shape":0,"field":0,"list":0,"digits":2,"maxkeys":3,"sysforms":2,"oneop":1},Q,expect=["C07/accepted-by-build"],bounds="syscall rule with a pid filter and 0..3 keys of 1..2 plain bytes each (joined keys)"))
 c07.append(job("watch","rule/flags","VH_RoundTrip",["C07/"],{"shape":1},Q,expect=["C07/accepted-by-build"],bounds="file watches on a file, a directory and a non-existing path (Stat stub) x 16 permission subsets x 0..1 key"))
 C["C07"]={"jobs":c07,"assumptions":RULE_ASSUME+PARSE_ASSUME[:2]+["string values contain no white space, quotes, backslashes or control characters (ToCommandLine does not quote)","resolveIds=false","watch-shaped rules use paths the Stat stub (and any Linux file system) classifies the same way in both Build calls"],
    "outside":["rules with more than two filters","other architectures","resolveIds=true"]}
